@@ -355,6 +355,25 @@ impl Ctx {
         *self.inner.lock().unwrap().counters.get(key).unwrap_or(&0)
     }
 
+    /// Fold the summary written by checks/with_miri.sh (thorough tier) into this run.
+    pub fn fold_miri_summary(&self) -> Value {
+        let Ok(path) = std::env::var("VERIF_MIRI_SUMMARY") else { return json!(null) };
+        let Ok(txt) = std::fs::read_to_string(&path) else {
+            self.inconclusive(format!("Miri summary {path} is missing"));
+            return json!(null);
+        };
+        let v: Value = serde_json::from_str(&txt).unwrap_or(json!(null));
+        for ub in v["undefined_behaviour"].as_array().cloned().unwrap_or_default() {
+            self.violate("miri-undefined-behaviour", trunc(ub["report"].as_str().unwrap_or(""), 900), json!({"kind":"miri","report":ub}));
+        }
+        for nc in v["not_completed"].as_array().cloned().unwrap_or_default() {
+            self.inconclusive(format!("Miri shard {} did not complete: {}", nc["shard"], trunc(nc["tail"].as_str().unwrap_or(""), 300)));
+        }
+        self.count("miri_shards_ok", v["ok"].as_u64().unwrap_or(0));
+        self.count("calls_executed_under_miri", v["calls_under_miri"].as_u64().unwrap_or(0));
+        json!({"shards": v["shards"], "ok": v["ok"], "calls_under_miri": v["calls_under_miri"]})
+    }
+
     /// Merge a thread-local batch (cheaper than locking per event).
     pub fn merge(&self, b: Batch) {
         let mut g = self.inner.lock().unwrap();
